@@ -177,6 +177,7 @@ static void rt_free(void *p) { if (rt_nfreed < 64) rt_freed[rt_nfreed++] = p; /*
 #define RT_MEMSET(p, c, n) memset((p), (int)(c), (n))
 #define RT_MEMCPY(d, s, n) memcpy((d), (s), (n))
 
+static _Bool rt_done_slot(int t);
 /* ------------------------------------------------------------------ primitives: failure */
 static void P_abort(void) { RT_ABORT("abort()"); }
 static void P___assert_fail(void *a, void *b, uint32_t c, void *d) {
@@ -256,7 +257,6 @@ static void P_rt_wait_eq(uint32_t idx, uint64_t val) {
 }
 
 /* can a thread parked on a blocking primitive make progress now? (deadlock detector) */
-static _Bool rt_done_slot(int t);
 static _Bool rt_can_proceed(int t) {
   switch (rt_wait_kind[t]) {
   case RT_W_MUTEX: return *(uint32_t *)rt_wait_obj[t] == 0;
@@ -266,6 +266,29 @@ static _Bool rt_can_proceed(int t) {
   default: return 1;
   }
 }
+
+/* ------------------------------------------------------------------ primitives: threads */
+static int rt_activate(void *fn, void *arg);
+static uint32_t P_pthread_create(void *tidp, void *attr, void *fn, void *arg) {
+  (void)attr;
+  int k = rt_activate(fn, arg);
+  if (tidp) *(uint64_t *)tidp = (uint64_t)k + 1;
+  return 0;
+}
+static uint32_t P_pthread_join(uint64_t tid, void *retp) {
+  int k = (int)tid - 1;
+  if (!rt_done_slot(k)) { rt_block = 1; rt_wait_kind[rt_cur] = RT_W_JOIN; rt_wait_obj[rt_cur] = (void *)(uintptr_t)k; return 0; }
+  rt_wait_kind[rt_cur] = RT_W_NONE;
+  if (retp) *(void **)retp = (void *)0;
+  return 0;
+}
+static void *P_strerror(uint32_t e) { (void)e; return (void *)0; }
+static uint32_t P_compat_futex_async(void *a, uint32_t op, uint32_t v, void *t, void *a2, uint32_t v3) {
+  (void)a; (void)op; (void)v; (void)t; (void)a2; (void)v3;
+  RT_ASSERT(0, "compat_futex_async reached but not modelled in this obligation"); return 0; }
+static uint32_t P_compat_futex_noasync(void *a, uint32_t op, uint32_t v, void *t, void *a2, uint32_t v3) {
+  (void)a; (void)op; (void)v; (void)t; (void)a2; (void)v3;
+  RT_ASSERT(0, "compat_futex_noasync reached but not modelled in this obligation"); return 0; }
 
 /* ------------------------------------------------------------------ primitives: misc environment */
 static uint32_t P_poll(void *fds, uint64_t n, uint32_t ms) { (void)fds; (void)n; (void)ms; return 0; }
